@@ -9,7 +9,7 @@ TRUSTED = ["Lean 4.33.0 kernel", "axioms: propext, Classical.choice, Quot.sound 
            "result must equal what the instance computes alone (model) and the naive oracle",
            "PARTIAL: data races on the `static mut` timing counters are undefined behaviour that neither the model nor a run can exhibit reliably; "
            "rayon pool internals and DashMap are trusted"]
-POOLS = [1, 2, 3, 8, 16]
+POOLS = [1, 2, 3, 5, 8, 16]
 
 
 def build(rng, tier):
@@ -50,6 +50,19 @@ def build(rng, tier):
         inst = f"ystress_{j}"
         ops = [f"eng new {inst} ystress par {a}"] + engcheck.load_ops(inst, sinp) + [f"eng runin {inst} {b}", f"eng dump {inst}", f"eng runin {inst} {b}", f"eng dump {inst}"]
         cases.append(engcheck.Case("ystress", inst, ops, {"inp": sinp, "union": sinp, "kind": "pools-stress", "abc": (a, b, b), "no_model": True}))
+    # (1c) keyed (hash-sharded) indices with many keys, merged delta -> total in pools whose size is not a power of two and differs from the
+    # pool the instance (and the process-wide shard count) was created in: every shard must take part in the merge
+    join = {"rels": [{"arity": 2}, {"arity": 2}, {"arity": 2}],
+            "rules": [{"heads": [(1, [("var", 0), ("var", 1)])], "body": [("cl", 0, [("v", 0), ("v", 1)], [])]},
+                      {"heads": [(1, [("var", 0), ("var", 2)])], "body": [("cl", 1, [("v", 0), ("v", 1)], []), ("cl", 0, [("v", 1), ("v", 2)], [])]},
+                      {"heads": [(2, [("var", 0), ("var", 2)])], "body": [("cl", 1, [("v", 0), ("v", 1)], []), ("cl", 1, [("v", 1), ("v", 2)], []), ("cl", 0, [("v", 0), ("v", 3)], [])]}]}
+    progs["yjoin"] = join; PROGS["yjoin"] = join
+    mods.append(("yjoin", eng.rs_module("yjoin", join, macro="ascent_par")))
+    jinp = {0: [(10 * c + k, 10 * c + k + 1) for c in range(120) for k in range(4)]}
+    for j, (a, b) in enumerate([(4, 3), (8, 5), (3, 3), (16, 6), (16, 7), (5, 5), (2, 3)] if tier == "quick" else [(a, b) for a in (1, 2, 3, 4, 5, 8, 16) for b in (3, 5, 6, 7, 9, 12)]):
+        inst = f"yjoin_{j}"
+        ops = [f"eng new {inst} yjoin par {a}"] + engcheck.load_ops(inst, jinp) + [f"eng runin {inst} {b}", f"eng dump {inst}", f"eng runin {inst} {b}", f"eng dump {inst}"]
+        cases.append(engcheck.Case("yjoin", inst, ops, {"inp": jinp, "union": jinp, "kind": "pools-join-stress", "abc": (a, b, b), "no_model": True}))
     # (2) several instances, of the same and of different generated types, serial and parallel, running at the same time
     pids = list(progs)
     for g in range(6 if tier == "quick" else 40):
@@ -103,4 +116,5 @@ def check(tier, replay=None):
     return engcheck.run_property("C20", tier, modules=["AscentVerif.Props.C20"], theorems=THEOREMS, trusted=TRUSTED, group="c20",
                                  build=build, oracle=oracle, canon=canon, nbins=1, what="instances across pools and concurrent instances",
                                  rule="parallel programs constructed / run / re-run (after pushes) in pools of different sizes (a,b,c) in {1,2,3,8,16}^3; groups of instances of the "
-                                      "same and of different generated types run at the same time on OS threads; every instance must compute what it computes alone")
+                                      "same and of different generated types run at the same time on OS threads; every instance must compute what it computes alone; stress programs with 1500 rows "
+                                      "(per-thread no-index shards) and 480 keyed rows (hash-sharded indices) in pools of 3, 5, 6, 7 threads created in pools of other sizes")
